@@ -265,8 +265,14 @@ func prop(t *rapid.T) {
 				lp = model.GenRelative(t, model.GenCfg{MaxSegs: 3, Strict: o.Strict}, base).String()
 				hist = append(append(append([]req{}, hist[:k]...), req{"+GET", lp}), hist[k:]...)
 			}
-		} else if model.Stable(lp, o.Strict) && !strings.ContainsAny(lp, "{}[]") {
-			hist = append(append(append([]req{}, hist[:k]...), req{"+GET", model.Normalize(lp, o.Strict)}), hist[k:]...)
+		} else {
+			// preferably a path that was requested just before (its answer may sit in the cache), asked again right after
+			if prev := hist[k-1]; prev.method != "+GET" && rapid.Bool().Draw(t, "latePathJustRequested") {
+				lp = prev.path
+			}
+			if model.Stable(lp, o.Strict) && !strings.ContainsAny(lp, "{}[]") {
+				hist = append(append(append([]req{}, hist[:k]...), req{"+GET", model.Normalize(lp, o.Strict)}, req{"GET", lp}), hist[k:]...)
+			}
 		}
 	}
 	if msg := runHistory(p, hist, true); msg != "" {
